@@ -33,7 +33,7 @@ ASSUMPTIONS = [
     "proposals are at least 1.6x wider than the posterior in every dimension so importance weights have finite variance",
     "runs raising the documented 'contains NaN values' ValueError are dropped (counted); a case with >25% dropped replicates is skipped",
     "cases whose particle system degenerates (median smallest ESS < 12) are skipped and counted: Monte-Carlo error is not meaningful there",
-    "BlackJAX SMC cannot run; flow-based preconditioning is exercised in the thorough tier only if time allows (not in this version)",
+    "BlackJAX SMC cannot run; flow-based preconditioning (a tiny Zuko flow retrained at every iteration) is exercised in the thorough tier only (1 case in 8 of the MiniPCN-SMC cases)",
 ]
 
 PRE = ["none", "default", "logit", "probit", "affine", "logit+affine", "probit+affine"]
@@ -67,8 +67,18 @@ def _case(draw):
     return case
 
 
+@st.composite
+def _case_thorough(draw):
+    c = draw(_case())
+    # thorough tier only (each replicate trains a tiny Zuko flow per iteration): flow-based preconditioning
+    if c["sampler"] == "smc" and c["target"] != "circle" and c["ns"] in ("numpy", "torch") and draw(st.integers(0, 7)) == 0:
+        c["pre"] = "flow"
+        c["n"] = 150
+    return c
+
+
 def cases(tier):
-    return _case()
+    return _case() if tier == "quick" else _case_thorough()
 
 
 class Target:
@@ -175,15 +185,20 @@ def _one_run(case, T, seed):
     flow, c_in = T.proposal(seed)
     d = case["d"]
     params = [f"p{i}" for i in range(d)]
+    fkw = ({"flow_backend": "zuko", "hidden_features": [8], "transforms": 1, "seed": seed % 10**6} if case["pre"] == "flow"
+           else {"flow_backend": "pbt_analytic"})
     a = Aspire(log_likelihood=ll, log_prior=lp, dims=d, parameters=params,
                prior_bounds={p: [float(T.lo[i]), float(T.hi[i])] for i, p in enumerate(params)},
                periodic_parameters=params if case["pre"] == "periodic" else None,
-               flow=flow, flow_backend="pbt_analytic", xp=xp, dtype="float64")
+               flow=flow, xp=xp, dtype="float64", **fkw)
     kw = {"n_samples": case["n"], "sampler": case["sampler"]}
     pre = case["pre"]
     if case["sampler"] != "importance":
         if pre == "none":
             kw["preconditioning"] = "none"
+        elif pre == "flow":
+            kw["preconditioning"] = "flow"
+            kw["preconditioning_kwargs"] = {"fit_kwargs": {"n_epochs": 2, "batch_size": case["n"]}}
         else:
             kw["preconditioning"] = "default"
             pk = {"affine_transform": "affine" in pre, "bounded_to_unbounded": ("logit" in pre or "probit" in pre)}
